@@ -120,6 +120,16 @@ pub fn perturb(l: &Layout, fi: usize) -> Vec<(String, Layout)> {
             nf.array = Some(ArrayDecl { count: 3, stride: Some(a.stride.unwrap_or(w).max(1)), colon: a.colon });
             nf.huge = Some(Huge { part: "stride".into(), value: 1u64 << 63 });
             push("huge-stride-wraps-k3", nf, None);
+            // a huge array *length* whose (K-1)*stride is 0 modulo 2^64: K = 2^(64-t) + 1 for a stride of 2^t.
+            // Only on fields without setter: for a writable field an accepting macro would try to unroll 2^63
+            // builder steps
+            let st = a.stride.unwrap_or(w).max(2).next_power_of_two();
+            let t = st.trailing_zeros();
+            let mut nf = f.clone();
+            nf.access = if f.access.readable() { Access::R } else { Access::None };
+            nf.array = Some(ArrayDecl { count: 3, stride: Some(st), colon: a.colon });
+            nf.huge = Some(Huge { part: "count".into(), value: (1u64 << (64 - t)) + 1 });
+            push("huge-count-wraps", nf, None);
         }
     }
     if !matches!(f.ty, FieldTy::Bool) && f.ranges.iter().all(|r| r.lo <= r.hi) {
@@ -414,7 +424,7 @@ pub fn corpus_c09(tier: Tier, seed: u64) -> Vec<Decl> {
                 continue;
             }
             for (name, nl) in perturb(l, fi) {
-                if !(name.starts_with("list-array") || name.starts_with("stride") || name.starts_with("array-")) {
+                if !(name.starts_with("list-array") || name.starts_with("stride") || name.starts_with("array-") || name.starts_with("huge")) {
                     continue;
                 }
                 let v = layout_verdict(&nl);
@@ -476,6 +486,10 @@ pub fn corpus_c09(tier: Tier, seed: u64) -> Vec<Decl> {
         }
         for l in sys_deep_nesting(false) {
             large.push((l, vec![0]));
+        }
+        // companion names (`x_raw` next to `x`, ...): every such declaration must be accepted as it stands
+        for l in sys_name_pairs() {
+            large.push((l, vec![]));
         }
         for (l, fis) in large {
             let v = layout_verdict(&l);
